@@ -123,7 +123,9 @@ def build_pool(cat, strip_citations=False):
                 for k, v in fd.get("qualifiers", {}).items():
                     q[k] = list(v)
                 q["note"] = ["uid:" + fd["uid"]]
-                if fd.get("citation") and not strip_citations:
+                if fd.get("citation_raw") and not strip_citations:
+                    q["citation"] = list(fd["citation_raw"])
+                elif fd.get("citation") and not strip_citations:
                     q["citation"] = ["[%d]" % c for c in fd["citation"]]
                 feats.append(SeqFeature(_mk_location(fd["parts"]), type=fd["type"], id=fd.get("fid", "<unknown id>"), qualifiers=q))
             ann = {"topology": rd.get("topology", "circular"), "molecule_type": "DNA"}
@@ -150,8 +152,10 @@ def build_pool(cat, strip_citations=False):
     return pool
 
 
-def apply_edit(cat, pool, op):
+def apply_edit(cat, pool, op, strip=False):
     """Caller-level edits (the clients own the records)."""
+    if strip and op["op"] == "edit_citation":
+        return  # the citation-free twin of the pool has no citations to edit
     from Bio.Seq import Seq
 
     rec = pool[op["rec"]]
@@ -160,6 +164,13 @@ def apply_edit(cat, pool, op):
         rec.seq = Seq(rd["broken_seq"])
     elif op["op"] == "repair":
         rec.seq = Seq(rd["seq"]) if not rd.get("source") else Seq(rd["orig_seq"])
+    elif op["op"] == "edit_citation":
+        for f in rec.features:
+            if ("uid:" + op["uid"]) in f.qualifiers.get("note", []):
+                if op["citation"]:
+                    f.qualifiers["citation"] = ["[%d]" % c for c in op["citation"]]
+                else:
+                    f.qualifiers.pop("citation", None)
     elif op["op"] == "edit_annot":
         if op["what"] == "description":
             rec.description = op["value"]
@@ -468,7 +479,21 @@ def _run_child(case):
             res, info = do_assemble(env, op, faults.get(op["id"]))
             ev["outcome"] = res
             ev["info"] = info
-        elif k in ("edit_seq", "repair", "edit_annot"):
+        elif k == "probe":
+            inst = env["handles"].get(op["h"])
+            if inst is None:
+                ev["outcome"] = {"skip": "no-handle"}
+            else:
+                try:
+                    r = getattr(inst, op["method"])()
+                    if hasattr(r, "features"):
+                        r = snapshot(r)
+                    elif not isinstance(r, bool):
+                        r = str(r)
+                    ev["outcome"] = {"ok": kernel.digest_of(r)[:16]}
+                except Exception as exc:
+                    ev["outcome"] = {"exc": type(exc).__name__}
+        elif k in ("edit_seq", "repair", "edit_annot", "edit_citation"):
             apply_edit(cat, pool, op)
             baseline[op["rec"]] = snapshot(pool[op["rec"]])
             ev["outcome"] = "ok"
@@ -505,7 +530,7 @@ def _run_child(case):
 def _reference_child(cat, edits, op, strip):
     env = _new_env({"pool": cat["pool"], "refs": cat.get("refs", []), "wrappers": []}, strip=strip)
     for e in edits:
-        apply_edit(cat, env["pool"], e)
+        apply_edit(cat, env["pool"], e, strip=strip)
     wdefs = {wd["h"]: wd for wd in cat["wrappers"]}
     for h in [op["vec"]] + list(op["mods"]):
         if h in wdefs and h not in env["handles"]:
@@ -520,7 +545,7 @@ def _dry_child(case, op_index):
     cat = case["catalogue"]
     env = _new_env(cat)
     for e in case["ops"][:op_index]:
-        if e["op"] in ("edit_seq", "repair", "edit_annot"):
+        if e["op"] in ("edit_seq", "repair", "edit_annot", "edit_citation"):
             apply_edit(cat, env["pool"], e)
     op = dict(case["ops"][op_index], count_calls=True, count_lines=True)
     res, info = do_assemble(env, op, None)
@@ -538,12 +563,13 @@ def _ref_key(canon_ref):
     return canon_ref["Reference"][0] if isinstance(canon_ref, dict) and "Reference" in canon_ref else None
 
 
-def check_citations(cat, prod):
-    """prod: snapshot of the product.  Returns list of (clause, detail)."""
-    fails = []
-    refdefs = {r["id"]: r for r in cat.get("refs", [])}
-    title_to_id = {r["title"]: r["id"] for r in cat.get("refs", [])}
-    # source features by uid
+def _ref_content_key(c):
+    """(title, authors, journal) of a canonical reference."""
+    return tuple(c["Reference"][:3]) if isinstance(c, dict) and "Reference" in c else None
+
+
+def current_citations(cat, edits=()):
+    """uid -> list of reference ids its feature cites now (catalogue + caller edits)."""
     src = {}
     for rd in cat["pool"]:
         refs = rd.get("references") or []
@@ -552,9 +578,25 @@ def check_citations(cat, prod):
                 src["uid:%s:%s" % (rd["id"], fi)] = [refs[c - 1] for c in cites]
         else:
             for fd in rd.get("features", []):
-                src["uid:" + fd["uid"]] = [refs[c - 1] for c in (fd.get("citation") or [])]
+                if fd.get("citation_raw"):
+                    src["uid:" + fd["uid"]] = None  # malformed on purpose: no expectation
+                else:
+                    src["uid:" + fd["uid"]] = [refs[c - 1] for c in (fd.get("citation") or [])]
+    by_rec = {rd["id"]: rd for rd in cat["pool"]}
+    for e in edits:
+        if e["op"] == "edit_citation":
+            refs = by_rec[e["rec"]].get("references") or []
+            src["uid:" + e["uid"]] = [refs[c - 1] for c in e["citation"]]
+    return src
+
+
+def check_citations(cat, prod, edits=()):
+    """prod: snapshot of the product.  Returns list of (clause, detail)."""
+    fails = []
+    content_to_id = {(r["title"], r["authors"], r.get("journal", "J. Sim. %s" % r["id"])): r["id"] for r in cat.get("refs", [])}
+    src = current_citations(cat, edits)
     prefs = prod["references"]
-    pref_ids = [title_to_id.get(_ref_key(r)) for r in prefs]
+    pref_ids = [content_to_id.get(_ref_content_key(r)) for r in prefs]
     cited = set()
     for f in prod["features"]:
         q = dict((k, v) for k, v in f["qualifiers"])
@@ -580,7 +622,7 @@ def check_citations(cat, prod):
             got.append(pref_ids[k - 1])
         if not ok:
             continue
-        if notes and notes[0] in src:
+        if notes and src.get(notes[0]) is not None:
             if got != src[notes[0]]:
                 fails.append(("C10.target", "feature %s cites %s, its source cited %s" % (notes[0], got, src[notes[0]])))
             cited.update(got)
@@ -611,6 +653,10 @@ def _has_citations(cat, rec_ids):
             elif any(fd.get("citation") for fd in rd.get("features", [])):
                 return True
     return False
+
+
+def _has_malformed(cat, rec_ids):
+    return any(fd.get("citation_raw") for rd in cat["pool"] if rd["id"] in rec_ids for fd in rd.get("features", []))
 
 
 def reference(cat, edits, op, strip=False):
@@ -658,6 +704,13 @@ def execute(case):
         elif k == "edit_annot":
             edits.append(op)
             probes["edit:annot"] += 1
+        elif k == "edit_citation":
+            edits.append(op)
+            probes["edit:citation"] += 1
+        elif k == "probe":
+            probes["probe:" + op["method"]] += 1
+            if op["h"] in wdefs:
+                matched_at[op["h"]] = True
         elif k == "rewrap":
             stale.discard(op["h"])
             matched_at.pop(op["h"], None)
@@ -684,8 +737,13 @@ def execute(case):
             this_kind = kind
             stats["assemble:" + kind] += 1
             cit = _has_citations(cat, recs)
+            malformed = _has_malformed(cat, recs)
+            if malformed:
+                probes["assemble-with-malformed-citation"] += 1
             if cit:
                 probes["assemble-with-citations"] += 1
+            if any(len(set(rd.get("references") or [])) < len(rd.get("references") or []) for rd in cat["pool"] if rd["id"] in recs):
+                probes["assemble-with-duplicate-reference-in-one-record"] += 1
             if len(set(op["mods"])) < len(op["mods"]):
                 probes["same-instance-twice"] += 1
             if len(set(rec_of(h) for h in op["mods"])) < len(set(op["mods"])):
@@ -722,9 +780,9 @@ def execute(case):
                     probes["product-with-cited-inputs"] += 1
                     if any(k2 == "citation" for f in prod["features"] for k2, _ in f["qualifiers"]):
                         probes["product-carries-citation"] += 1
-                for clause, detail in check_citations(cat, prod):
+                for clause, detail in check_citations(cat, prod, edits):
                     failures.append({"property": "C10", "clause": clause, "op": i, "op_id": op.get("id"), "signature": clause.split(".")[1], "expected": None, "observed": None, "detail": detail})
-                if not fired and not used_stale and cit:
+                if not fired and not used_stale and cit and not malformed:
                     sref = reference(cat, list(edits), op, strip=True)
                     stats["stripped_reference_executions"] += 1
                     if "product" not in sref:
@@ -732,7 +790,7 @@ def execute(case):
                     elif strip_product(sref["product"]) != strip_product(prod):
                         d = first_difference(strip_product(sref["product"]), strip_product(prod))
                         failures.append({"property": "C10", "clause": "C10.same-as-without", "op": i, "op_id": op.get("id"), "signature": "product-differs", "expected": _short(d[1]), "observed": _short(d[2]), "detail": "product differs from the citation-free assembly at %s" % d[0]})
-            elif not fired and not used_stale and cit:
+            elif not fired and not used_stale and cit and not malformed:
                 sref = reference(cat, list(edits), op, strip=True)
                 stats["stripped_reference_executions"] += 1
                 if "product" in sref or sref.get("exc") != out.get("exc"):
@@ -744,7 +802,7 @@ def execute(case):
             on = this_kind if k == "assemble" else k
             failures.append({"property": "C07", "clause": "C07.purity", "op": i, "op_id": op.get("id"), "signature": "on:%s" % on.split(":")[0] if not str(on).startswith("injected") else "on:injected",
                              "expected": d0["before"], "observed": d0["after"], "detail": "record %s changed at %s (%d record(s) changed)" % (d0["rec"], d0["path"], len(ev["purity"]))})
-            if k == "assemble" and isinstance(out, dict) and "product" in out and any("citation" in d["path"] or "references" in d["path"] or "Reference" in d["after"] for d in ev["purity"]):
+            if k == "assemble" and isinstance(out, dict) and not out.get("skip") and any("citation" in d["path"] or "references" in d["path"] or "Reference" in d["after"] for d in ev["purity"]):
                 failures.append({"property": "C10", "clause": "C10.inputs", "op": i, "op_id": op.get("id"), "signature": "inputs", "expected": d0["before"], "observed": d0["after"], "detail": "input %s citation data changed at %s" % (d0["rec"], d0["path"])})
         if k == "assemble":
             prev_kind = this_kind
@@ -854,6 +912,12 @@ def gen_scenario(g, kind=None):
     # references
     n_refs_total = g.randint(0, 5)
     refs = [{"id": "R%d" % i, "title": "Title %d of the simulated literature" % i, "authors": "Author%d A." % i, "shared_object": g.random() < 0.5} for i in range(n_refs_total)]
+    if n_refs_total >= 2 and g.random() < 0.3:
+        # distinct references sharing a title (GenBank's "Direct Submission" entries)
+        for r in g.sample(refs, 2):
+            r["title"] = "Direct Submission"
+    dup_refs = g.random() < 0.15       # one record lists the same reference twice
+    malformed = g.random() < 0.06      # one feature carries a dangling / malformed citation
     pool, wrappers = [], []
     lvl = g.choice(["Entry", "Cassette"])
     mcls, vcls = "gen:%s:%s" % (lvl, cutter), "gen:%sVector:%s" % (lvl, cutter)
@@ -866,10 +930,16 @@ def gen_scenario(g, kind=None):
 
     def add(rid, role, seq, seg, cls, broken_site=True):
         rl = ref_list()
+        if dup_refs and rl and g.random() < 0.5:
+            rl = rl + [g.choice(rl)]
         rd = {"id": rid, "role": role, "seq": seq, "topology": "circular", "references": rl, "name": rid, "description": "synthetic %s %s" % (role, rid),
               "dbxrefs": ["SIM:%s" % rid] if g.random() < 0.3 else [], "features": _gen_features(g, rid, len(seq), seg, len(rl or []), rid)}
         if g.random() < 0.2:
             rd["annotations"] = {"keywords": ["kw-" + rid], "organism": "synthetic"}
+        if malformed and rd["features"] and not any(f.get("citation_raw") for r_ in pool for f in r_["features"]) and g.random() < 0.4:
+            f_ = g.choice(rd["features"])
+            f_["citation"] = None
+            f_["citation_raw"] = g.choice([["[%d]" % (len(rl or []) + 3)], ["7"], ["[x]"], ["[1]", "[%d]" % (len(rl or []) + 2)] if rl else ["[2]"]])
         rd["broken_seq"] = _break_site(seq, geom["site"])
         _rotate_record(g, rd)
         pool.append(rd)
@@ -1057,10 +1127,18 @@ def gen_case(spec):
             else:
                 add(client, {"op": "edit_seq", "rec": r})
                 broken.add(r)
-        elif x < 0.88:
+        elif x < 0.85:
             r = g.choice(cat["pool"])["id"]
             add(client, {"op": "edit_annot", "rec": r, "what": g.choice(["description", "qualifier", "annotation"]), "feature": g.randrange(8), "value": "edit-%d" % len(ops)})
-        elif x < 0.96:
+        elif x < 0.89:
+            cands = [(rd, fd) for rd in cat["pool"] if not rd.get("source") and rd.get("references") for fd in rd["features"] if not fd.get("citation_raw")]
+            if cands:
+                rd, fd = g.choice(cands)
+                nref = len(rd["references"])
+                add(client, {"op": "edit_citation", "rec": rd["id"], "uid": fd["uid"], "citation": sorted(g.sample(range(1, nref + 1), g.randint(0, min(2, nref))))})
+        elif x < 0.94:
+            add(client, {"op": "probe", "h": g.choice(cat["wrappers"])["h"], "method": g.choice(["target_sequence", "target_sequence", "overhang_start", "overhang_end", "is_valid"])})
+        elif x < 0.97:
             add(client, {"op": "rewrap", "h": g.choice(cat["wrappers"])["h"]})
         elif broken:
             r = sorted(broken)[0]
@@ -1154,7 +1232,7 @@ def catalogue_summary(case):
 
 
 EXPECTED_PROBES = {
-    "C07": ["assemble-with-citations", "refinement-after-failure", "refinement-after-injected-fault", "same-instance-twice", "missing-module", "unused-modules-warning", "stale-wrapper-used", "edit:edit_seq", "rewrap"],
+    "C07": ["assemble-with-duplicate-reference-in-one-record", "assemble-with-malformed-citation", "probe:target_sequence", "edit:citation", "assemble-with-citations", "refinement-after-failure", "refinement-after-injected-fault", "same-instance-twice", "missing-module", "unused-modules-warning", "stale-wrapper-used", "edit:edit_seq", "rewrap"],
     "C10": ["product-carries-citation", "product-with-cited-inputs"],
 }
 
